@@ -38,6 +38,10 @@ Clause(e) ==
               THEN "harmonic-shares-two-notes"
          ELSE IF e.op = "substitute_minor_for_major" /\ ~RootsAbove(orig, res, 3) THEN "minor-for-major-root"
          ELSE IF e.op = "substitute_major_for_minor" /\ ~RootsAbove(orig, res, 9) THEN "major-for-minor-root"
+         ELSE IF e.op = "substitute" /\ e.in.depth = 0 /\ ParseNumeral(orig).suffix \in {"m", "m7"}
+                 /\ ~(\A i \in 1..Len(res) : ParseNumeral(res[i]).suffix \in {"M", "M7"} => NumeralRoot(res[i]) = Mod12(NumeralRoot(orig) + 3)) THEN "minor-for-major-root"
+         ELSE IF e.op = "substitute" /\ e.in.depth = 0 /\ ParseNumeral(orig).suffix \in {"M", "M7"}
+                 /\ ~(\A i \in 1..Len(res) : ParseNumeral(res[i]).suffix \in {"m", "m7"} => NumeralRoot(res[i]) = Mod12(NumeralRoot(orig) + 9)) THEN "major-for-minor-root"
          ELSE IF e.op = "substitute_diminished_for_diminished"
                  /\ ~(\A i \in 1..Len(res) : NumeralRoot(res[i]) = Mod12(NumeralRoot(orig) + 3 * i)) THEN "diminished-cycle"
          \* substitute_diminished_for_dominant is not a documented rule (no docstring, no promise in the property):
